@@ -702,6 +702,47 @@ fn builder_leg(depth: usize) -> Value {
             }
         }
     }
+    // a directory that lives on another file system, reached through a symbolic link inside the
+    // recorded tree (a vendored tree, an output directory on tmpfs): recorded like any other. Needs a
+    // second writable file system; /dev/shm, /tmp and /var/tmp are tried (the scratch tree itself may be on tmpfs); without one the case is skipped.
+    {
+        use std::os::unix::fs::MetadataExt;
+        let here = std::fs::metadata("t").map(|m| m.dev()).ok();
+        // the scratch tree itself may be on tmpfs: take the first candidate that is somewhere else
+        let other_root = ["/dev/shm", "/tmp", "/var/tmp"].iter().map(std::path::Path::new).find(|p| std::fs::metadata(p).map(|m| Some(m.dev()) != here).unwrap_or(false)).unwrap_or(std::path::Path::new("/nonexistent"));
+        let there = std::fs::metadata(other_root).map(|m| m.dev()).ok();
+        if here.is_some() && there.is_some() && here != there {
+            let ext = other_root.join(format!("itv-c18-{}", std::process::id()));
+            let _ = std::fs::remove_dir_all(&ext);
+            if std::fs::create_dir_all(ext.join("sub")).is_ok() {
+                let _ = std::fs::write(ext.join("data.txt"), b"on another file system");
+                let _ = std::fs::write(ext.join("sub/deep.txt"), b"deeper");
+                let _ = std::os::unix::fs::symlink(&ext, "t/vendor");
+                n += 1;
+                let query = json!({"tree": "t with t/vendor -> a directory on another file system", "paths": ["t"]});
+                let reference = fswalk(&s(&["t"]), None, None);
+                match run_impl(&s(&["t"]), None, None) {
+                    Err((l, m)) => mismatches.push(json!({"key": format!("panic:{l}"), "query": query, "what": m})),
+                    Ok(imp) => {
+                        if let (Expect::Map(a), Expect::Map(b)) = (&imp, &reference) {
+                            if a != b {
+                                let missing: Vec<&String> = b.keys().filter(|k| !a.contains_key(*k)).collect();
+                                mismatches.push(json!({"key": "entry-missing:directory-on-another-file-system", "query": query, "missing": missing, "reference_entries": b.len(), "recorded_entries": a.len()}));
+                            }
+                        } else if matches!(reference, Expect::Map(_)) {
+                            mismatches.push(json!({"key": "entry-missing:directory-on-another-file-system", "query": query, "implementation": format!("{imp:?}")}));
+                        }
+                    }
+                }
+                let _ = std::fs::remove_file("t/vendor");
+                let _ = std::fs::remove_dir_all(&ext);
+            }
+        } else {
+            mismatches.retain(|_| true);
+            // no second file system in this sandbox: nothing to say about it
+            n += 0;
+        }
+    }
     // a file recorded, rewritten in place with other bytes of the same length and its modification
     // time put back (what `cp -p`, `tar -x`, `rsync -t`, `touch -r` do), recorded again - through
     // record_artifacts, record_artifact and in_toto_run. The digests are those of the bytes on disk.
@@ -953,7 +994,7 @@ pub fn run(tier: Tier) -> i32 {
     }
     crate::envprobe::judge(&mut acc, "C18:", &mut c.extra);
     c.acc = acc;
-    c.rule = "state = directory tree reached by appending one node under an existing directory (mkdir; write with size in {0,1,1023,1024,1025,4097,8193,70001} for single-node trees and {1,1025} otherwise; symlink absolute/relative to any existing node or to an ancestor incl. the root), names assigned in the fixed order a, ab, .h, 'e é', deduplicated on the sorted listing; per tree a menu of queries (whole tree x 7 strip lists x 10 algorithm lists (incl. lists that mix a supported with an unsupported or mis-cased name: an error, never a silently shortened digest set); non-normalised roots; each top-level node as root; two roots in both orders; overlapping and repeated roots) through record_artifacts in a private cwd, compared with an independent walker; plus in_toto_run with 7 commands on a subset, and with 6 argument variants (materials and products from different paths, other algorithms, strip prefixes, one side empty) x 4 commands; plus every history of depth <= 4 (5) over {add_material(f), add_product(f), write(f, c)} on 2 files x 3 contents through LinkMetadataBuilder, calculate_hashes over 8 sizes x 6 reader shapes (short reads, interrupted) x 4 algorithm lists; and record_artifact on one file x 8 sizes x 4 algorithm lists x 8 strip lists x 4 spellings; a file rewritten in place with other bytes of the same length and its modification time restored, between two recordings (record_artifacts, record_artifact, and inside one in_toto_run); call histories (a step run - or failing to start - with run directory none / . / t / t/t / a missing one, then the tree recorded again: the process's working directory is unchanged and the recording equals the reference); a nested tree whose directory names repeat the strip prefix (t/f1, t/t/f2, t/t/t/f3, t/tt, t/t/tt2) x 9 strip lists x 3 root lists through record_artifacts and file by file through record_artifact. non-trivial = trees with a symlink, and run cases".into();
+    c.rule = "state = directory tree reached by appending one node under an existing directory (mkdir; write with size in {0,1,1023,1024,1025,4097,8193,70001} for single-node trees and {1,1025} otherwise; symlink absolute/relative to any existing node or to an ancestor incl. the root), names assigned in the fixed order a, ab, .h, 'e é', deduplicated on the sorted listing; per tree a menu of queries (whole tree x 7 strip lists x 10 algorithm lists (incl. lists that mix a supported with an unsupported or mis-cased name: an error, never a silently shortened digest set); non-normalised roots; each top-level node as root; two roots in both orders; overlapping and repeated roots) through record_artifacts in a private cwd, compared with an independent walker; plus in_toto_run with 7 commands on a subset, and with 6 argument variants (materials and products from different paths, other algorithms, strip prefixes, one side empty) x 4 commands; plus every history of depth <= 4 (5) over {add_material(f), add_product(f), write(f, c)} on 2 files x 3 contents through LinkMetadataBuilder, calculate_hashes over 8 sizes x 6 reader shapes (short reads, interrupted) x 4 algorithm lists; and record_artifact on one file x 8 sizes x 4 algorithm lists x 8 strip lists x 4 spellings; a directory on another file system reached through a symbolic link inside the tree (when /dev/shm, /tmp or /var/tmp is one); a file rewritten in place with other bytes of the same length and its modification time restored, between two recordings (record_artifacts, record_artifact, and inside one in_toto_run); call histories (a step run - or failing to start - with run directory none / . / t / t/t / a missing one, then the tree recorded again: the process's working directory is unchanged and the recording equals the reference); a nested tree whose directory names repeat the strip prefix (t/f1, t/t/f2, t/t/t/f3, t/tt, t/t/tt2) x 9 strip lists x 3 root lists through record_artifacts and file by file through record_artifact. non-trivial = trees with a symlink, and run cases".into();
     c.bound_completed = format!("all trees with <= {max_nodes} nodes ({} trees{})", trees.len(), if capped { ", capped" } else { "" });
     c.assume("real filesystem (tmpfs); no dangling symlinks, devices, permission errors or non-UTF-8 names");
     c.assume("a file reached twice through the same key is one entry; two different files with one key must be an error");
